@@ -499,9 +499,16 @@ impl Scope {
         let module = module.with_forwarded();
         match as_n {
             UseAs::KeepName => {
+                // The namespace is the last url segment, without the
+                // leading underscore of a partial and without extension.
                 let name = name
                     .rfind([':', '/'])
-                    .map_or(name, |i| &name[i + 1..])
+                    .map_or(name, |i| &name[i + 1..]);
+                let name = name.strip_prefix('_').unwrap_or(name);
+                let name = [".scss", ".sass", ".css"]
+                    .iter()
+                    .find_map(|ext| name.strip_suffix(ext))
+                    .unwrap_or(name)
                     .replace('_', "-");
                 self.define_module(name, module.expose(expose));
             }
